@@ -34,6 +34,13 @@ void VF_HARNESS(void);
 void __ll2c_global_ctors(void);
 #endif
 }
+#ifdef VF_WRAP_CLOCK
+#include <QDate>
+#include <QDateTime>
+QDate vf_wrap_currentDate(); QDateTime vf_wrap_currentDateTime();
+extern "C" QDate __wrap__ZN5QDate11currentDateEv() { return vf_wrap_currentDate(); }
+extern "C" QDateTime __wrap__ZN9QDateTime15currentDateTimeEv() { return vf_wrap_currentDateTime(); }
+#endif
 int main() {
 #ifdef VF_LL2C
     __ll2c_global_ctors();
